@@ -51,3 +51,17 @@ def decl_of(n):
     if n.k == "DeclRefExpr" and n.get("dk") in ("local", "param", "staticlocal", "binding"):
         return n.get("d")
     return None
+
+
+def type_roles(fn, defs=None, anchors=None):
+    """like roles_for, but locals that are not inlined are named by their type only ($<type>): robust against reordering and
+    adding locals, at the price of not distinguishing two locals of one type"""
+    defs = defs or LocalDefs(fn)
+    roles = roles_for(fn, anchors, defs)
+    out = {}
+    for d, r in roles.items():
+        if r.startswith("$L<"):
+            out[d] = "$<" + r[3:].rsplit("#", 1)[0][:-1] + ">"
+        else:
+            out[d] = r
+    return out
